@@ -330,7 +330,9 @@ package object
 //@ let kind = uf("rt.kind", reflect.Kind, typ)
 //@ let elem = uf("rt.elem", reflect.Type, typ)
 //@ let special = haskey(kindConverters, kind) || haskey(typeConverters, typ)
-//@ ensures[C08.disp.kind] old(haskey(kindConverters, kind)) ==> err == nil && result0 == old(kindConverters[kind])
+//@ let named = haskey(basicTypes, kind) && typ != basicTypes[kind]
+//@ ensures[C08.disp.kind] old(haskey(kindConverters, kind) && !named) ==> err == nil && result0 == old(kindConverters[kind])
+//@ ensures[C08.disp.named] old(haskey(kindConverters, kind) && named) ==> err == nil && typeof(result0) == *NamedConverter && ref(result0) != nil && fresh(result0) && result0.(*NamedConverter).typ == typ && result0.(*NamedConverter).basicType == old(basicTypes[kind]) && result0.(*NamedConverter).inner == old(kindConverters[kind])
 //@ ensures[C08.disp.type] old(!haskey(kindConverters, kind) && haskey(typeConverters, typ)) ==> err == nil && result0 == old(typeConverters[typ])
 //@ ensures[C08.disp.slice] !old(special) && kind == reflect.Slice && err == nil ==> typeof(result0) == *SliceConverter && ref(result0) != nil && result0.(*SliceConverter).valueType == elem && uf("conv.for", bool, result0.(*SliceConverter).valueConverter, elem)
 //@ ensures[C08.disp.array] !old(special) && kind == reflect.Array && err == nil ==> typeof(result0) == *ArrayConverter && ref(result0) != nil && result0.(*ArrayConverter).valueType == elem && result0.(*ArrayConverter).len == uf("rt.len", int, typ) && uf("conv.for", bool, result0.(*ArrayConverter).valueConverter, elem)
@@ -346,6 +348,7 @@ package object
 //@ func init
 //@ props C08
 //@ ensures[C08.kinds.table] typeof(kindConverters[reflect.Bool]) == *BoolConverter && typeof(kindConverters[reflect.Int]) == *IntConverter && typeof(kindConverters[reflect.Int8]) == *Int8Converter && typeof(kindConverters[reflect.Int16]) == *Int16Converter && typeof(kindConverters[reflect.Int32]) == *Int32Converter && typeof(kindConverters[reflect.Int64]) == *Int64Converter && typeof(kindConverters[reflect.Uint]) == *UintConverter && typeof(kindConverters[reflect.Uint8]) == *Uint8Converter && typeof(kindConverters[reflect.Uint16]) == *Uint16Converter && typeof(kindConverters[reflect.Uint32]) == *Uint32Converter && typeof(kindConverters[reflect.Uint64]) == *Uint64Converter && typeof(kindConverters[reflect.Float32]) == *Float32Converter && typeof(kindConverters[reflect.Float64]) == *Float64Converter && typeof(kindConverters[reflect.String]) == *StringConverter
+//@ ensures[C08.kinds.basic] forallA(k, reflect.Kind, haskey(basicTypes, k) == haskey(kindConverters, k)) && forallA(k, reflect.Kind, haskey(basicTypes, k) ==> basicTypes[k] != nil)
 //@ ensures[C08.kinds.only] forallA(k, reflect.Kind, haskey(kindConverters, k) ==> oneof(k, reflect.Bool, reflect.Int, reflect.Int8, reflect.Int16, reflect.Int32, reflect.Int64, reflect.Uint, reflect.Uint8, reflect.Uint16, reflect.Uint32, reflect.Uint64, reflect.Float32, reflect.Float64, reflect.String))
 
 // The two user-written initialisers fill the small-value caches (the facts assumed as cacheAt / bcacheAt by the
@@ -361,3 +364,24 @@ package object
 //@ modifies intCache
 //@ invariant 1: 0 <= i && i <= 256 && len(intCache) == 256 && fresh(intCache) && forall(k, 0, i, isalloc(intCache[k]) && intCache[k].value == int64(k))
 //@ ensures[C08.init.intcache] len(intCache) == 256 && forall(k, 0, 256, intCache[k] != nil && intCache[k].value == int64(k))
+
+// NamedConverter: a named type of scalar kind crosses the boundary through the unnamed type of its kind
+// (reflect.Value.Convert, assumed: the result is a valid value of the target type, a function of value and type).
+//@ external reflect.(Value).Convert
+//@ requires rvalid(v) && t != nil
+//@ modifies nothing
+//@ ensures rvalid(result) && uf("rv.addr", int, result) == 0 && rval(result) == uf("go.convert", any, rval(v), t) && rval(result) != nil && uf("go.typeof", reflect.Type, rval(result)) == t
+
+//@ func (*NamedConverter).From
+//@ props C08
+//@ safety
+//@ requires c != nil && c.inner != nil && c.basicType != nil && obj != nil
+//@ ensures[C08.named.from] result0 == uf("conv.from", Object, c.inner, uf("go.convert", any, obj, c.basicType)) && (err == nil) == uf("conv.from.ok", bool, c.inner, uf("go.convert", any, obj, c.basicType))
+
+//@ func (*NamedConverter).To
+//@ props C08
+//@ safety
+//@ requires c != nil && c.inner != nil && c.typ != nil
+//@ let inner = uf("conv.to", any, c.inner, obj)
+//@ ensures[C08.named.to.reject] !uf("conv.to.ok", bool, c.inner, obj) ==> err != nil
+//@ ensures[C08.named.to.value] uf("conv.to.ok", bool, c.inner, obj) && inner != nil ==> err == nil && result0 == uf("go.convert", any, inner, c.typ) && uf("go.typeof", reflect.Type, result0) == c.typ
